@@ -20,12 +20,20 @@
 #include <sstream>
 #include <stdexcept>
 
+#ifdef BLOCH_VERIF
+#include "bloch/support/verif_hooks.hpp"
+#endif
+
 namespace bloch::runtime {
 
     using support::BlochError;
     using support::ErrorCategory;
 
+#ifdef BLOCH_VERIF
+    static bloch::verif::Engine rng;
+#else
     static std::mt19937 rng{std::random_device{}()};
+#endif
     // TODO(REFACTOR): inject RNG via a Strategy/adapter so simulator is
     // deterministic under test and replaceable by other random sources.
 
